@@ -122,6 +122,17 @@ Fixpoint clos (fuel : nat) (pm : list (nat * rewrite)) (stack seen pushed : list
 Definition repl_closure (pm : list (nat * rewrite)) (p : nat) : option (list nat) :=
   match clos (repl_fuel pm) pm [p] [] [] with Some (_, pushed) => Some pushed | None => None end.
 
+(** ** Side conditions of the change-id clause: the commits with a record and the immutable commits
+    are visible, there is a head, and a change id is at most the position of a commit that carries
+    it (change ids are numbered by first occurrence). *)
+Definition uniq_dom_ok (s : state) (o : rebase_opts) : bool :=
+  let g := pg (s_g s) in
+  let vis := ancs g (v_heads (s_v s)) in
+  forallb (fun k => memn k vis) (pm_keys (s_pm s))
+  && forallb (fun i => memn i vis) (o_imm o)
+  && negb (match v_heads (s_v s) with [] => true | _ => false end)
+  && forallb (fun i => N.leb (c_change (getc (s_g s) i)) (N.of_nat i)) (seq 0 (length (s_g s))).
+
 (** ** The processing order respects the dependencies (boolean form of [Proofs.C11Loop.valid_from]):
     a parent that is to be rebased, and every to-be-rebased commit reachable from a parent through
     the replacement records, was processed before. Checked per case on the order the model
